@@ -749,3 +749,110 @@ func factSaysEmpty(f Fact, pred func(ssa.Value) bool) bool {
 	}
 	return false
 }
+
+// ---- lockset (F5) -------------------------------------------------------------------------
+
+// mutexOp: if ins is a (deferred or direct) call of sync.(*Mutex|*RWMutex).<name> on a
+// struct field, returns the field name and base value.
+func mutexOp(ins ssa.Instruction) (op string, field string, base ssa.Value, deferred bool) {
+	var cc *ssa.CallCommon
+	switch x := ins.(type) {
+	case *ssa.Call:
+		cc = &x.Call
+	case *ssa.Defer:
+		cc = &x.Call
+		deferred = true
+	default:
+		return
+	}
+	sc := cc.StaticCallee()
+	if sc == nil || sc.Pkg == nil || sc.Pkg.Pkg.Path() != "sync" || len(cc.Args) == 0 {
+		return "", "", nil, false
+	}
+	switch sc.Name() {
+	case "Lock", "Unlock", "RLock", "RUnlock":
+	default:
+		return "", "", nil, false
+	}
+	if fa, ok := cc.Args[0].(*ssa.FieldAddr); ok {
+		return sc.Name(), fieldName(fa.X.Type(), fa.Field), fa.X, deferred
+	}
+	return sc.Name(), "", cc.Args[0], deferred
+}
+
+// lockHeldAt reports whether the mutex stored in field muField (of any base) is certainly
+// held when ins executes: a Lock/RLock on it dominates ins and no non-deferred unlock that
+// follows that lock can reach ins.
+func lockHeldAt(ins ssa.Instruction, muField string, allowRead bool) bool {
+	fn := ins.Parent()
+	var locks, unlocks []ssa.Instruction
+	allInstrs(fn, false, func(_ *ssa.Function, i ssa.Instruction) {
+		op, f, _, deferred := mutexOp(i)
+		if f != muField {
+			return
+		}
+		switch op {
+		case "Lock":
+			locks = append(locks, i)
+		case "RLock":
+			if allowRead {
+				locks = append(locks, i)
+			}
+		case "Unlock", "RUnlock":
+			if !deferred {
+				unlocks = append(unlocks, i)
+			}
+		}
+	})
+	for _, l := range locks {
+		if !instrDominates(l, ins) {
+			continue
+		}
+		ok := true
+		for _, u := range unlocks {
+			if instrDominates(l, u) && canReach(u, ins) {
+				ok = false
+			}
+		}
+		if ok {
+			return true
+		}
+	}
+	return false
+}
+
+// canReach reports whether execution can flow from instruction a to instruction b.
+func canReach(a, b ssa.Instruction) bool {
+	ba, bb := a.Block(), b.Block()
+	if ba == bb {
+		ia, ib := -1, -1
+		for i, ins := range ba.Instrs {
+			if ins == a {
+				ia = i
+			}
+			if ins == b {
+				ib = i
+			}
+		}
+		if ia < ib {
+			return true
+		}
+	}
+	seen := map[*ssa.BasicBlock]bool{}
+	var walk func(x *ssa.BasicBlock) bool
+	walk = func(x *ssa.BasicBlock) bool {
+		for _, s := range x.Succs {
+			if s == bb {
+				return true
+			}
+			if !seen[s] {
+				seen[s] = true
+				if walk(s) {
+					return true
+				}
+			}
+		}
+		return false
+	}
+	return walk(ba)
+}
